@@ -47,7 +47,7 @@ let string_of_z z = match z with
   | Zpos p -> hex_of_pos p
   | Zneg p -> "-" ^ hex_of_pos p
 
-let table : (string * (z list -> z list)) list = Entries.table
+let table = Entries.table
 
 let () =
   let entry = Sys.argv.(1) in
